@@ -341,7 +341,7 @@ func (m *model) genValueNN(ty tref, depth int, label string) string {
 
 // ---- input values, fields -----------------------------------------------------------------
 
-// inputTypeFor picks a type for an argument / input field. owner is the index of the input
+// genInputType picks a type for an argument / input field. ownerIdx is the index of the input
 // object being defined (-1 for arguments): references to input objects that are not strictly
 // earlier must not be non-null at the outermost level (no unbreakable cycles).
 func (m *model) genInputType(ownerIdx int, label string) tref {
@@ -349,15 +349,9 @@ func (m *model) genInputType(ownerIdx int, label string) tref {
 	cands := append([]string{}, builtinScalars...)
 	cands = append(cands, m.namesOfKind("SCALAR", "ENUM")...)
 	inputs := m.namesOfKind("INPUT_OBJECT")
-	usable := inputs
-	if ownerIdx >= 0 {
-		// only input objects whose fields already exist can get literals; the rest can be referenced
-		// but then the field may not get a default (handled by the caller through hasFields)
-		usable = inputs
-	}
 	// weight input objects up a little
-	cands = append(cands, usable...)
-	cands = append(cands, usable...)
+	cands = append(cands, inputs...)
+	cands = append(cands, inputs...)
 	name := rapid.SampledFrom(cands).Draw(t, label+"-tname")
 	w := m.genWrap(label)
 	if td := m.byNm[name]; td != nil && td.Kind == "INPUT_OBJECT" && ownerIdx >= 0 {
@@ -869,13 +863,10 @@ func (m *model) applyDirectives() {
 // ---- rendering ---------------------------------------------------------------------------
 
 type style struct {
-	argSep     string
-	leadAmp    bool
-	leadPipe   bool
-	multiline  bool
-	depFirst   bool
-	implSep    string
-	blockIndnt string
+	argSep   string
+	leadAmp  bool
+	leadPipe bool
+	depFirst bool
 }
 
 func (d descr) render(indent string) string {
@@ -1060,8 +1051,8 @@ func (m *model) render() string {
 	return strings.Join(defs, "\n\n") + "\n"
 }
 
-// genSDL draws one type system. rawPct / shadowPct are the percentages of schemas that are
-// allowed to contain the shapes of the recorded findings "raw strings" and "shadow roots".
+// genSDL draws one type system. A small share of the schemas is allowed to contain the shapes
+// of recorded findings (see NOTES.md); all others steer away from them by construction.
 func genSDL(t *rapid.T) (string, *model) {
 	raw := chance(t, 12, "class-raw-strings")
 	shadow := chance(t, 6, "class-shadow-roots")
